@@ -9,6 +9,7 @@ typedef unsigned __int128 V_u128;
 typedef unsigned long V_limb;
 
 #define V_NMAX   (1L << 40)          /* limbs; DESIGN section 4 item 6 */
+#define V_ZMAX   (1L << 30)          /* limbs of an mpz/mpq/mpf block: _mp_alloc/_mp_size are int */
 #define V_B      (((V_u128) 1) << 64)
 
 /* ghost position(s) chosen by the caller / harness before a call, and ghost carries */
@@ -17,6 +18,8 @@ V_limb g_ci, g_co;    /* carry/borrow at the head of iteration gk and gk+1 (== r
 static const V_limb g_zero = 0; /* never assigned: reads as 0; target of V_OLDSEL when the position does not exist */
 /* value *(p) had on entry if c held on entry, else 0 */
 #define V_OLDSEL(c,p) __CPROVER_old (*((c) ? (p) : (const V_limb *) &g_zero))
+long   g_hd;          /* ghost OUTPUT of mpn_cmp / mpn_zero_p: highest differing (resp. a non-zero) index, -1 if none */
+long   gh;            /* third ghost position (harness-chosen guess of a ghost OUTPUT index such as g_hd) */
 long   gj;            /* second ghost position (order facts, "all above are equal/zero") */
 
 long   nondet_long (void);
